@@ -5,6 +5,8 @@ package c10
 import (
 	"bytes"
 	"fmt"
+	"os"
+	"path/filepath"
 	"sort"
 	"testing"
 
@@ -24,6 +26,31 @@ type Case struct {
 	// Only restricts the enumeration to one fault (used by shrunk replays); -1 = all offsets
 	OnlyOffset int
 	OnlyMode   string // "", "write-short", "write-zero", "read-alone", "read-together"
+	// Sparse: very large files get a few dozen fault offsets only (start, chunk headers, powers of
+	// two up to the size, middle, end)
+	Sparse bool `json:",omitempty"`
+}
+
+// sparseOffsets: fault offsets for files of a megabyte and more.
+func sparseOffsets(file []byte) []int {
+	n := len(file)
+	set := map[int]bool{0: true, 8: true, 14: true, 15: true, 21: true, 22: true, 23: true, 30: true, n / 2: true, n - 70000: true, n - 4097: true, n - 5: true, n - 1: true, n: true}
+	for e := 512; e < n; e *= 2 {
+		set[e-1], set[e], set[e+1], set[e+22], set[e+23] = true, true, true, true, true
+	}
+	for i := 0; i+4 <= n && i < 1<<16; i++ {
+		if string(file[i:i+4]) == "MTrk" {
+			set[i], set[i+4], set[i+8], set[i+9] = true, true, true, true
+		}
+	}
+	var out []int
+	for x := range set {
+		if x >= 0 && x <= n {
+			out = append(out, x)
+		}
+	}
+	sort.Ints(out)
+	return out
 }
 
 var counters = ev.New("C10", "fault-points",
@@ -52,6 +79,11 @@ func run(c Case) (res ev.Result) {
 	want := func(mode string, k int) bool {
 		return (c.OnlyMode == "" || c.OnlyMode == mode) && (c.OnlyOffset < 0 || c.OnlyOffset == k)
 	}
+	offs := offsets(file)
+	if c.Sparse {
+		offs = sparseOffsets(file)
+		res.Classes = append(res.Classes, "track-body>1MiB")
+	}
 	var n, nt int64
 	perMode := map[string]int64{}
 	defer func() {
@@ -64,7 +96,7 @@ func run(c Case) (res ev.Result) {
 	for _, wm := range []string{"write-short", "write-zero", "write-full-count", "write-transient"} {
 		mode := wm
 		short := wm == "write-short" || wm == "write-transient"
-		for _, k := range offsets(file) {
+		for _, k := range offs {
 			if !want(mode, k) {
 				continue
 			}
@@ -97,13 +129,32 @@ func run(c Case) (res ev.Result) {
 			}
 		}
 	}
+	// ---- the file-based write call against a device that accepts nothing (every write fails)
+	if c.OnlyMode == "" || c.OnlyMode == "write-file-device-full" {
+		if path, cleanup, ok := fullDevice(); ok {
+			n++
+			nt++
+			perMode["write-file-device-full"]++
+			var werr error
+			p := ev.Try(func() { werr = gen.BuildLib(c.API).WriteFile(path) })
+			cleanup()
+			if p != "" {
+				res.Violation = "write-file-device-full: " + p
+				return
+			}
+			if werr == nil {
+				res.Violation = fmt.Sprintf("write-file-device-full: WriteFile to a destination on which every write fails (no space left on device) returned nil for a file of %d bytes", len(file))
+				return
+			}
+		}
+	}
 	// ---- read direction: sticky non-EOF error at offset k < len(file)
 	for _, together := range []bool{false, true} {
 		mode := "read-alone"
 		if together {
 			mode = "read-together"
 		}
-		for _, k := range offsets(file) {
+		for _, k := range offs {
 			if !want(mode, k) {
 				continue
 			}
@@ -127,6 +178,30 @@ func run(c Case) (res ev.Result) {
 		}
 	}
 	return
+}
+
+// fullDevice returns a path (a symbolic link in a fresh directory, so that the library's clean-up
+// removes the link and not the device) to /dev/full, if this system has a working one.
+func fullDevice() (path string, cleanup func(), ok bool) {
+	f, err := os.OpenFile("/dev/full", os.O_WRONLY, 0)
+	if err != nil {
+		return "", nil, false
+	}
+	_, werr := f.Write([]byte{0})
+	f.Close()
+	if werr == nil {
+		return "", nil, false
+	}
+	dir, err := os.MkdirTemp("", "verif-c10-")
+	if err != nil {
+		return "", nil, false
+	}
+	path = filepath.Join(dir, "full.mid")
+	if err := os.Symlink("/dev/full", path); err != nil {
+		os.RemoveAll(dir)
+		return "", nil, false
+	}
+	return path, func() { os.RemoveAll(dir) }, true
 }
 
 // offsets returns every fault offset 0..len(file) for files up to 1500 bytes; for larger files
@@ -194,7 +269,7 @@ func offsets(file []byte) []int {
 }
 
 var files = ev.NewCheck("C10", "files",
-	"rapid: files from the C01 API-history generator (1..5 tracks, payloads <= 300 bytes, in one case of twelve up to 70000 bytes with a forced payload of 4097 / 65536 / 65537 / 70000 bytes in the last track; files > 1500 bytes use every offset near the start, every chunk header, the buffer thresholds and the end plus a stride instead of every offset); per file a write fault at EVERY byte offset (short write (k,err), refused write (0,err), deferred failure (len(p),err) and a transient failure (one short write with an error, later writes accepted again)) and a sticky non-EOF read fault at EVERY byte offset (error alone after k bytes, and together with the last bytes); oracle: fault before the end => non-nil error (read: and no value), no fault => nil error, size == bytes accepted == file length; the per-fault-point counts are in part 'fault-points'",
+	"rapid: files from the C01 API-history generator (1..5 tracks, payloads <= 300 bytes, in one case of twelve up to 70000 bytes with a forced payload of 4097 / 65536 / 65537 / 70000 bytes in the last track; files > 1500 bytes use every offset near the start, every chunk header, the buffer thresholds and the end plus a stride instead of every offset); per file a write fault at EVERY byte offset (short write (k,err), refused write (0,err), deferred failure (len(p),err) and a transient failure (one short write with an error, later writes accepted again)) and a sticky non-EOF read fault at EVERY byte offset (error alone after k bytes, and together with the last bytes); once per file SMF.WriteFile through a symbolic link to /dev/full (every write fails; skipped where that device does not exist); oracle: fault before the end => non-nil error (read: and no value), no fault => nil error, size == bytes accepted == file length; the per-fault-point counts are in part 'fault-points'",
 	func(t *rapid.T) Case {
 		mp := 300
 		if rapid.IntRange(0, 11).Draw(t, "bigPayloads?") == 0 {
@@ -217,5 +292,33 @@ var files = ev.NewCheck("C10", "files",
 	}, run)
 
 func TestPropFiles(t *testing.T) { files.Rapid(t, 100, 3000) }
+
+var bigTracks = ev.NewCheck("C10", "big-tracks",
+	"enumeration: files whose last track body exceeds one MiB (one payload of 1.2 MiB; 40 payloads of 55 KiB; quick: the first only on two shards) with write faults (all four kinds) and read faults (both kinds) at a few dozen offsets: start, chunk headers, around every power of two up to the size, middle, end; same oracle as 'files'",
+	nil, run)
+
+func TestEnumBigTracks(t *testing.T) {
+	bigTracks.R.Exhaustive = true
+	mk := func(payloads, size int) Case {
+		var ops []gen.Op
+		for i := 0; i < payloads; i++ {
+			m := make([]byte, size)
+			for j := range m {
+				m[j] = byte(j*7+i) & 0x7F
+			}
+			m[0], m[size-1] = 0xF0, 0xF7
+			ops = append(ops, gen.Op{Kind: "add", Delta: uint32(i), Msgs: []ev.Hex{m}}, gen.Op{Kind: "add", Delta: 1, Msgs: []ev.Hex{{0x90, 60, byte(1 + i%100)}}})
+		}
+		small := gen.TrackOps{Ops: []gen.Op{{Kind: "add", Delta: 0, Msgs: []ev.Hex{{0xC0, 5}}}}}
+		return Case{API: gen.APICase{Ctor: "NewSMF1", Tracks: []gen.TrackOps{small, {Ops: ops}}}, OnlyOffset: -1, Sparse: true}
+	}
+	cases := []Case{mk(1, 1200000), mk(40, 55000)}
+	for i, c := range cases {
+		if i%ev.Shards() != ev.Shard() {
+			continue
+		}
+		bigTracks.One(t, c)
+	}
+}
 
 func TestReplay(t *testing.T) { ev.ReplayAll(t) }
